@@ -1,4 +1,5 @@
 import HkModel.Drive.Queue
+import HkModel.Drive.Dispatch
 /-! `hkdriver <mode>`: reads protocol lines on stdin, answers one line per input line. -/
 open Hk
 
@@ -9,6 +10,21 @@ partial def loopQueue (h : IO.FS.Stream) (out : IO.FS.Stream) (ds : DriveQueue.D
   for o in outs do out.putStrLn o
   loopQueue h out ds'
 
+/-- stateless modes: one answer line per input line, then a summary -/
+partial def loopPure (h : IO.FS.Stream) (out : IO.FS.Stream) (f : String → String) (n bad : Nat) : IO (Nat × Nat) := do
+  let line ← h.getLine
+  if line.isEmpty then return (n, bad)
+  let o := f line
+  out.putStrLn o
+  loopPure h out f (n + 1) (if o == "ok" then bad else bad + 1)
+
+def runPure (f : String → String) : IO UInt32 := do
+  let stdin ← IO.getStdin
+  let stdout ← IO.getStdout
+  let (n, bad) ← loopPure stdin stdout f 0 0
+  stdout.putStrLn ("SUMMARY {\"steps\":" ++ toString n ++ ",\"not_ok\":" ++ toString bad ++ "}")
+  return 0
+
 def main (args : List String) : IO UInt32 := do
   let stdin ← IO.getStdin
   let stdout ← IO.getStdout
@@ -17,6 +33,7 @@ def main (args : List String) : IO UInt32 := do
     let ds ← loopQueue stdin stdout {}
     stdout.putStrLn (DriveQueue.summary ds)
     return 0
+  | ["dispatch"] => runPure DriveDispatch.processLine
   | _ =>
     IO.eprintln "usage: hkdriver <mode>"
     return 2
